@@ -32,3 +32,33 @@ Example C13_nonvacuous :
   /\ query_csv_events true FRun = [Open ROut; Open RIn; Open RJoin; Close RIn; Close ROut; Close RJoin].
 Proof. split; reflexivity. Qed.
 Print Assumptions C13_nonvacuous.
+
+(* ------------------------------------------------------------------ the CSV front-end commutes with the list front-end *)
+From RBQL Require Import Lines Csv CsvSpec Reader TableLines_Proofs Table_Proofs FrontCsv_Proofs.
+
+(* For ANY table transformation q (the meaning of a query on string tables; the engine's is proved equal to the declarative
+   semantics in C01-C05): render a representable table T as CSV (either port's writer, any line separator), let the CSV
+   front-end read it (reader specification = both stream readers, C12 / C20), transform, and write: the output is the CSV
+   rendering of q T, and reading it gives q T - the table the list front-end returns.
+     render T = every written line followed by the separator;  parse = the records of records_of_text over smart_split;
+     csv_query text = option_map (fun T => render (q T)) (parse text);
+     csv_ok T = table_representable (every record representable, no CR in fields, no BOM look-alike) and no record that the
+                reader would take for a comment line *)
+Theorem C13_csv_front_commutes : forall (wl : lang) (pol : policy) (dlm ls : str) (c : cfg)
+    (q : list (list str) -> list (list str)),
+  c_rfc c = is_rfc pol -> effective_header c = false -> line_sep ls ->
+  good_dlm pol dlm = true -> dlm_nl_free pol dlm = true ->
+  forall T : list (list str),
+  csv_ok wl pol dlm c T -> csv_ok wl pol dlm c (q T) ->
+  csv_query wl pol dlm ls c q (render wl pol dlm ls T) = Some (render wl pol dlm ls (q T)) /\
+  parse pol dlm c (render wl pol dlm ls (q T)) = Some (q T).
+Proof. exact csv_front_commutes. Qed.
+Print Assumptions C13_csv_front_commutes.
+
+Example C13_csv_nonvacuous :
+  let c := plain_cfg false false EncUtf8 in
+  let T := [[[97%N]; [49%N]]; [[98%N]; [50%N]]] in
+  csv_ok LPy Simple [COMMA] c T /\ csv_ok LPy Simple [COMMA] c (List.rev T) /\
+  csv_query LPy Simple [COMMA] [LF] c (@List.rev _) (render LPy Simple [COMMA] [LF] T) = Some [98; 44; 50; 10; 97; 44; 49; 10]%N.
+Proof. vm_compute. repeat split. Qed.
+Print Assumptions C13_csv_nonvacuous.
